@@ -46,12 +46,170 @@ def check(run):
         _normalisation(run, ci, nd)
     run.floor('C14-R5', 6)
     run.floor('C14-R6', 3)
+    _utility(run, prog)
     run.floor('C14-R1', 3)
     run.floor('C14-R2', 9, 'obligations')
     run.floor('C14-R3', 3)
     run.floor('C14-R4', 3 * 8, 'obligations')
     from ..cachekey import check_caches
     check_caches(run, [m_ for m_ in prog.modules.values() if m_.relpath in set(FILES) and not m_.name.endswith('#pxd')], 'C14-K', prog=prog)
+
+
+def _utility(run, prog):
+    """R7: the helpers the caching objects are built on (cherab/core/math/interpolators/utility.pyx): derivatives_array(v, k)[j] is the
+    k-th derivative of v^j; factorial; find_index returns the lower index of the cell containing the value (documented end and
+    extrapolation codes, bisection that keeps x[bottom] <= v < x[top])."""
+    from ..pathinterp import PathInterp
+    run.describe('C14-R7', 'interpolation helpers: derivatives_array = d^k/dv^k [1, v, v^2, v^3]; factorial; find_index end cases and bisection')
+    rel = 'cherab/core/math/interpolators/utility.pyx'
+    mi = prog.load(rel, required=False)
+    if mi is None:
+        raise AnalysisError('anchored source file vanished: %s' % rel)
+    run.use_file(rel)
+    K = mi.name + '|'
+    # ---- derivatives_array
+    fn = mi.functions.get('derivatives_array')
+    if fn is None:
+        raise AnalysisError('anchored function vanished: derivatives_array')
+    vname, kname = [a.arg for a in fn.args.args[:2]]
+    for k in range(0, 5):
+        run.subject('C14-R7')
+        try:
+            paths = PathInterp(fn, (), {kname: k}, evaluator=SymEval, store_prefixes=('',), max_paths=8).run()
+        except Exception as e:
+            run.undecided('C14-R7', 'derivatives_array(v, %d)' % k, 'not interpreted: %s' % str(e)[:50])
+            continue
+        if len(paths) != 1:
+            run.undecided('C14-R7', 'derivatives_array(v, %d)' % k, '%d paths' % len(paths))
+            continue
+        got = {}
+        whole = None
+        arr = None
+        for key, val, tags, st, aug in paths[0].stores:
+            m = re.match(r'^(\w+)\[(\d+)\]$', key)
+            if m:
+                arr = m.group(1)
+                got[int(m.group(2))] = val
+            elif re.match(r'^\w+\[:\]$', key) or re.match(r'^\w+\[None:None(:None)?\]$', key):
+                whole = val
+        want = []
+        for j in range(4):
+            c = 1
+            for q in range(k):
+                c *= (j - q)
+            want.append(C(c) * (L(vname) ** (j - k)) if c else C(0))
+        vals = [got.get(j, whole) for j in range(4)]
+        if any(v is None for v in vals):
+            run.undecided('C14-R7', 'derivatives_array(v, %d)' % k, 'entries %s not all stored' % sorted(got))
+        elif all(a.eq(b) for a, b in zip(vals, want)):
+            run.ok('C14-R7', 'derivatives_array(v, %d)' % k, '[%s]' % ', '.join(w.key() for w in want), sample=(k == 1))
+        else:
+            j = [i for i in range(4) if not vals[i].eq(want[i])][0]
+            run.fail('C14-R7', K + 'derivatives_array|k=%d|j=%d' % (k, j), rel, fn.lineno,
+                     'derivatives_array(v, %d)[%d] is %s; the %s derivative of v^%d is %s: the constraint rows and the evaluation of the cached '
+                     'polynomial use a wrong power basis' % (k, j, vals[j].key(), ['0th', '1st', '2nd', '3rd', '4th'][k], j, want[j].key()))
+    # ---- factorial
+    fn = mi.functions.get('factorial')
+    if fn is None:
+        raise AnalysisError('anchored function vanished: factorial')
+    run.subject('C14-R7')
+    n = fn.args.args[0].arg
+    rets = [r for r in ast.walk(fn) if isinstance(r, ast.Return) and r.value is not None]
+    base = [r for r in rets if isinstance(r.value, ast.Constant)]
+    rec = [r for r in rets if not isinstance(r.value, ast.Constant)]
+    okf = None
+    if len(base) == 1 and len(rec) == 1 and base[0].value.value == 1:
+        g = facts(guards_of(fn, base[0]) or [])
+        cond_ok = (n, '<=', '0') in g or (n, '<', '1') in g or (n, '==', '0') in g or (n, '<=', '1') in g or (n, '<', '2') in g
+        txt = norm(rec[0].value).replace(' ', '')
+        rec_ok = txt in ('%s*factorial(%s-1)' % (n, n), 'factorial(%s-1)*%s' % (n, n))
+        okf = cond_ok and rec_ok
+        if okf:
+            run.ok('C14-R7', 'factorial', '1 for n <= 0, n * factorial(n - 1) otherwise')
+        else:
+            run.fail('C14-R7', K + 'factorial', rel, fn.lineno, 'factorial returns 1 under %s and %s otherwise: not n!' % (sorted(g), norm(rec[0].value)))
+    else:
+        loops = [x for x in ast.walk(fn) if isinstance(x, (ast.For, ast.While))]
+        run.undecided('C14-R7', 'factorial', 'form not recognised (%d loops)' % len(loops))
+    # ---- find_index
+    fn = mi.functions.get('find_index')
+    if fn is None:
+        raise AnalysisError('anchored function vanished: find_index')
+    xs, v = fn.args.args[0].arg, fn.args.args[1].arg
+    pad = fn.args.args[2].arg if len(fn.args.args) > 2 else 'padding'
+    tops = [norm(st.targets[0]) for st in fn.body if isinstance(st, ast.Assign) and norm(st.value).replace(' ', '') in ('%s.shape[0]-1' % xs, 'len(%s)-1' % xs)]
+    wl = [w for w in fn.body if isinstance(w, ast.While)]
+    run.subject('C14-R7')
+    if len(tops) != 1 or len(wl) != 1:
+        run.undecided('C14-R7', 'find_index', 'top index or search loop not found')
+        return
+    top = tops[0]
+    pre = fn.body[:fn.body.index(wl[0])]
+    table = {}
+    for st in pre:
+        if isinstance(st, ast.If) and len(st.body) == 1 and isinstance(st.body[0], ast.Return) and not st.orelse:
+            table[norm(st.test).replace(' ', '')] = norm(st.body[0].value).replace(' ', '')
+    want = {'%s==%s[0]' % (v, xs): '0', '%s==%s[%s]' % (v, xs, top): '%s-1' % top,
+            '%s<%s[0]-%s' % (v, xs, pad): '-2', '%s>%s[%s]+%s' % (v, xs, top, pad): '%s+1' % top,
+            '%s<%s[0]' % (v, xs): '-1', '%s>%s[%s]' % (v, xs, top): top}
+    if table == want:
+        # the order matters only between a test and the stricter test that must come first
+        order = [norm(st.test).replace(' ', '') for st in pre if isinstance(st, ast.If)]
+        strict_first = order.index('%s<%s[0]-%s' % (v, xs, pad)) < order.index('%s<%s[0]' % (v, xs)) and \
+            order.index('%s>%s[%s]+%s' % (v, xs, top, pad)) < order.index('%s>%s[%s]' % (v, xs, top))
+        if strict_first:
+            run.ok('C14-R7', 'find_index end cases', '0 / top - 1 on the ends, -2 / top + 1 beyond the padding, -1 / top inside it')
+        else:
+            run.fail('C14-R7', K + 'find_index|order', rel, fn.lineno, 'find_index tests the extrapolation region before the region beyond it: a value '
+                     'outside the permitted range is reported as inside the extrapolation range')
+    elif set(table) == set(want):
+        bad = sorted(k_ for k_ in want if table[k_] != want[k_])[0]
+        run.fail('C14-R7', K + 'find_index|code', rel, fn.lineno, 'find_index returns %s when %s; documented: %s' % (table[bad], bad, want[bad]))
+    else:
+        run.undecided('C14-R7', 'find_index end cases', 'tests %s' % sorted(table)[:3])
+    # bisection: invariant x[bottom] <= v < x[top]
+    run.subject('C14-R7')
+    w = wl[0]
+    ifs = [x for x in w.body if isinstance(x, ast.If)]
+    tt = norm(w.test).replace(' ', '').strip('()')
+    ret = [st for st in fn.body[fn.body.index(w) + 1:] if isinstance(st, ast.Return)]
+    if len(ifs) != 1 or not ret:
+        run.undecided('C14-R7', 'find_index bisection', 'loop body not recognised')
+        return
+    t = ifs[0].test
+    if not (isinstance(t, ast.Compare) and len(t.ops) == 1 and norm(t.left) == v and isinstance(t.comparators[0], ast.Subscript)
+            and norm(t.comparators[0].value) == xs):
+        run.undecided('C14-R7', 'find_index bisection', 'comparison %s' % norm(t)[:40])
+        return
+    mid = norm(t.comparators[0].slice)
+    a_true = {norm(st.targets[0]): norm(st.value) for st in ifs[0].body if isinstance(st, ast.Assign)}
+    a_false = {norm(st.targets[0]): norm(st.value) for st in ifs[0].orelse if isinstance(st, ast.Assign)}
+    bottoms = [k_ for k_ in list(a_true) + list(a_false) if k_ != top]
+    bottom = bottoms[0] if bottoms else None
+    ge = isinstance(t.ops[0], (ast.GtE, ast.Gt))
+    lower_arm, upper_arm = (a_true, a_false) if ge else (a_false, a_true)
+    mids = [norm(st.value).replace(' ', '') for st in ast.walk(fn) if isinstance(st, ast.Assign) and norm(st.targets[0]) == mid]
+    mid_ok = all(m_ in ('(%s+%s)/2' % (top, bottom), '(%s+%s)/2' % (bottom, top), '(%s+%s)//2' % (top, bottom), '(%s+%s)//2' % (bottom, top),
+                                    '%s/2' % top, '%s//2' % top) for m_ in mids) and len(mids) >= 2
+    problems = []
+    if lower_arm != {bottom: mid} or upper_arm != {top: mid}:
+        problems.append('when %s the search keeps %s and otherwise %s' % (norm(t), a_true, a_false))
+    if isinstance(t.ops[0], (ast.Gt, ast.LtE)):
+        problems.append('the node itself is compared with %s: a value equal to an interior node is placed in the cell below it, whose cached '
+                        'polynomial it does not belong to when the cells are sampled lazily' % type(t.ops[0]).__name__)
+    if tt not in ('%s-%s!=1' % (top, bottom), '%s-%s>1' % (top, bottom)):
+        problems.append('the loop runs while %s' % norm(w.test))
+    if norm(ret[0].value) != bottom:
+        problems.append('%s is returned' % norm(ret[0].value))
+    if not mid_ok:
+        problems.append('the probe index is %s' % mids)
+    if not problems:
+        run.ok('C14-R7', 'find_index bisection', 'x[bottom] <= v < x[top] kept; the lower index returned when the bracket has width one')
+    elif problems and ('the search keeps' in problems[0] or 'is returned' in ' '.join(problems) or 'the loop runs' in ' '.join(problems) or 'probe index' in ' '.join(problems)):
+        run.fail('C14-R7', K + 'find_index|bisection', rel, w.lineno, 'find_index: %s; documented: the lower index of the cell that contains the value '
+                 '(bisection keeping x[bottom] <= v < x[top])' % '; '.join(problems))
+    else:
+        run.undecided('C14-R7', 'find_index bisection', '; '.join(problems)[:80])
 
 
 def _normalisation(run, ci, nd):
